@@ -65,7 +65,8 @@ pub fn lockstep(g: &Grammar, l: &Lock, via_file: Option<&std::path::Path>) -> V 
     if let Loaded::Panic(p) = &lax {
         return V::Viol("panic", p.clone());
     }
-    let has_ifdata = l.text.contains("IF_DATA");
+    // (an IF_DATA block, not the quoted tag inside an A2ML definition)
+    let has_ifdata = l.text.match_indices("IF_DATA").any(|(i, _)| i == 0 || l.text.as_bytes()[i - 1] != b'"');
     let expect_file = via_file.map(|p| p.to_string_lossy().into_owned()).unwrap_or_default();
     let mut outcome = String::new();
     match (&strict, &lax) {
@@ -111,10 +112,13 @@ pub fn lockstep(g: &Grammar, l: &Lock, via_file: Option<&std::path::Path>) -> V 
     // R5: file and line of the diagnostic. The detection token is the one at which the reference
     // interpreter rejects the document, for the classes with a well-defined detection token.
     let mut recoverable = false;
+    if std::env::var("C06_DEBUG").is_ok() {
+        eprintln!("DEBUG lex/recognise: {:?}", vcore::reftok::lex(&l.text).map(|lx| vcore::interp::recognise(g, &lx).map(|_| "accepted").map_err(|r| format!("{:?} at {} {}", r.class, r.at, r.detail))));
+    }
     let located = match vcore::reftok::lex(&l.text) {
         Ok(lexed) => match vcore::interp::recognise(g, &lexed) {
             // (the reference interpreter does not look inside A2ML / IF_DATA)
-            Err(rej) if l.r5 && !has_ifdata && !l.text.contains("A2ML") && matches!(rej.class, Class::WrongType | Class::IdentForString | Class::BadNumber | Class::BadEnum | Class::UnknownTag | Class::BlockTooNew | Class::EnumTooNew | Class::EndTag | Class::NeedsBlock | Class::NeedsKeyword | Class::BadIdent | Class::Missing | Class::Trailing) => {
+            Err(rej) if l.r5 && !has_ifdata && (!l.text.contains("A2ML") || l.class.ends_with("+a2ml-block")) && matches!(rej.class, Class::WrongType | Class::IdentForString | Class::BadNumber | Class::BadEnum | Class::UnknownTag | Class::BlockTooNew | Class::EnumTooNew | Class::EndTag | Class::NeedsBlock | Class::NeedsKeyword | Class::BadIdent | Class::Missing | Class::Trailing) => {
                 // after a recoverable problem the non-strict parser goes on; if it fails later, the
                 // warning is not observable (the log is only returned on success)
                 recoverable = matches!(rej.class, Class::IdentForString | Class::UnknownTag | Class::BlockTooNew | Class::EnumTooNew | Class::EndTag | Class::BadIdent | Class::Missing | Class::Trailing);
@@ -469,6 +473,47 @@ pub fn build(g: &Grammar, thorough: bool) -> Vec<Lock> {
             for gap in ["\n", "\n\n\n", "\n/* c */\n", " "] {
                 out.push(Lock { text: format!("{}{gap}{surplus}\n", base.trim_end()), label: format!("surplus {n} behind /end PROJECT after {gap:?}"), class: format!("trailing-{n}"), fault_tok: None, r5: true, elem_lines: None });
             }
+        }
+    }
+    // located faults behind an A2ML block whose text holds multi-line comments (the line count has to survive the raw text)
+    {
+        let a2ml = "/begin A2ML\n/* a\n   b\n   c */\nstruct S { uint; }; // x\n/* one\n\ntwo */\nblock \"IF_DATA\" struct S;\n\n/end A2ML\n";
+        let base: Vec<(String, String, String)> = out.iter().filter(|l| l.fault_tok.is_some() && l.r5 && !l.text.contains("A2ML") && !l.text.contains("IF_DATA")).step_by(7).map(|l| (l.text.clone(), l.label.clone(), l.class.clone())).collect();
+        for (ltext, llabel, lclass) in base {
+            struct L {
+                text: String,
+                label: String,
+                class: String,
+            }
+            let l = L { text: ltext, label: llabel, class: lclass };
+            // behind the line that opens the MODULE (one token per line: the line after its long identifier)
+            let Some(p) = l.text.find("MODULE") else { continue };
+            let mut at = p;
+            // skip the name and the long identifier lines
+            for _ in 0..3 {
+                at = match l.text[at..].find('\n') {
+                    Some(x) => at + x + 1,
+                    None => break,
+                };
+            }
+            let mut t = l.text.clone();
+            t.insert_str(at, a2ml);
+            out.push(Lock { text: t, label: format!("{} behind an A2ML block with multi-line comments", l.label), class: format!("{}+a2ml-block", l.class), fault_tok: None, r5: true, elem_lines: None });
+        }
+    }
+    // two problems at one token: the element under test with each enum item (current, deprecated, too new, per version) written
+    // twice in its parent (the second occurrence is one too many for non-repeatable elements and ends with the enum item)
+    for d in corpus::enum_docs(g).into_iter().chain(corpus::carriers(g)) {
+        if d.path.len() < 2 {
+            continue;
+        }
+        let (parent, idx) = (d.path[..d.path.len() - 1].to_vec(), d.path[d.path.len() - 1]);
+        for v in 0..6 {
+            let mut d2 = d.clone();
+            let n = d2.doc.root.at(&d.path).clone();
+            d2.doc.root.at_mut(&parent).children.insert(idx + 1, n);
+            corpus::set_version(&mut d2.doc, v);
+            out.push(Lock { text: d2.doc.text(), label: format!("{} twice @v{v}", d.label), class: "element-twice".into(), fault_tok: None, r5: false, elem_lines: None });
         }
     }
     // IF_DATA described by an in-file A2ML definition: the conforming instances and every deviation of the C18 space
